@@ -100,7 +100,7 @@ def check_cfg(ctx, fx, cfg):
         is_default_api = not any((i.get("ty") if isinstance(i, dict) else i) in actor_tys for i in (rootf.get("inputs") or []))
         ok = bool(rs) and (kinds <= {"arg", "upvar"} or (is_default_api and kinds == {"default"}))
         ctx.require(ok, "R17.4", "actor-handed-over:%s@%s" % (g["def"], cfg), "the actor value the loop runs is not the one given to this spawn entry point (roots %s)" % sorted(map(str, rs)), fn=g["def"], site=t_["l"])
-    ctx.floor("R17.4", "callers of the loop constructors (%s)" % cfg, n_sites, 8)
+    ctx.floor("R17.4", "callers of the loop constructors (%s)" % cfg, n_sites, 3)
     check_join(ctx, fx, cfg, "R17.2")
     check_forwarding(ctx, fx, cfg)
     # R17.5 a pending join must not itself keep the actor alive: nothing erased into JoinFuture<A> owns a mailbox sender or a
